@@ -144,62 +144,83 @@ func (p *Program) NewLabel() Label {
 // Assemble resolves all jump destinations to concrete instructions using the labels.
 // This method takes care of long jumps and resolves them by using early returns or unconditional long jumps.
 func (p *Program) Assemble() ([]bpf.Instruction, error) {
-	for _, jump := range p.jumps {
-		// This is safe since we are only accessing instructions that were inserted as bpf.JumpIf.
-		jumpInst := p.instructions[jump.index].(bpf.JumpIf)
+	// The jumps are resolved from the last one to the first one. An instruction that bridges a long jump is
+	// inserted directly behind the jump. It therefore moves only instructions whose distances are not
+	// resolved yet, and the jumps in front of it can use it as well if they point to the same label.
+	for i := len(p.jumps) - 1; i >= 0; i-- {
+		jump := p.jumps[i]
 
-		skip, err := p.resolveLabel(jump, jump.trueLabel)
+		skipTrue, skipFalse, err := p.computeSkips(jump)
 		if err != nil {
 			return nil, err
 		}
-		jumpInst.SkipTrue = skip
 
-		skip, err = p.resolveLabel(jump, jump.falseLabel)
-		if err != nil {
-			return nil, err
-		}
-		jumpInst.SkipFalse = skip
-
-		if jumpInst.SkipTrue == 0 && jumpInst.SkipFalse == 0 {
+		if skipTrue == 0 && skipFalse == 0 {
 			return nil, fmt.Errorf("useless jump found")
 		}
 
+		// BPF does not support long conditional jumps. Bridging one label moves the destination
+		// of the other one, so repeat until both destinations can be reached.
+		for skipTrue > math.MaxUint8 || skipFalse > math.MaxUint8 {
+			if skipTrue > math.MaxUint8 {
+				p.bridgeLongJump(jump, jump.trueLabel, skipTrue)
+			} else {
+				p.bridgeLongJump(jump, jump.falseLabel, skipFalse)
+			}
+
+			skipTrue, skipFalse, err = p.computeSkips(jump)
+			if err != nil {
+				return nil, err
+			}
+		}
+
+		// This is safe since we are only accessing instructions that were inserted as bpf.JumpIf.
+		jumpInst := p.instructions[jump.index].(bpf.JumpIf)
+		jumpInst.SkipTrue = uint8(skipTrue)
+		jumpInst.SkipFalse = uint8(skipFalse)
 		p.instructions[jump.index] = jumpInst
 	}
 
 	return p.instructions, nil
 }
 
-// resolveLabel resolves the label to a short jump.
-func (p *Program) resolveLabel(jump JumpIf, label Label) (uint8, error) {
+// computeSkips computes the number of instructions to skip for both labels of the jump.
+func (p *Program) computeSkips(jump JumpIf) (skipTrue int, skipFalse int, err error) {
+	if skipTrue, err = p.computeSkipN(jump, jump.trueLabel); err != nil {
+		return 0, 0, err
+	}
+	if skipFalse, err = p.computeSkipN(jump, jump.falseLabel); err != nil {
+		return 0, 0, err
+	}
+	return skipTrue, skipFalse, nil
+}
+
+// bridgeLongJump inserts an instruction directly behind the jump that continues at the destination of the
+// label, which is skipN instructions away, and registers it as a destination of the label.
+func (p *Program) bridgeLongJump(jump JumpIf, label Label, skipN int) {
+	// If the jump destination is a return instruction, copy it and add an early return,
+	// if not, insert a long jump. A destination that is a long jump itself is followed.
+	jumpDest := p.instructions[int(jump.index)+1+skipN]
+	switch dest := jumpDest.(type) {
+	case bpf.RetConstant:
+	case bpf.Jump:
+		jumpDest = bpf.Jump{Skip: uint32(skipN) + 1 + dest.Skip}
+	default:
+		jumpDest = bpf.Jump{Skip: uint32(skipN)}
+	}
+
+	insertIndex := p.insertAfter(jump.index, jumpDest)
+
+	// Keep the destinations of the label sorted.
 	dest := p.labels[label]
-	skipN := p.computeSkipN(jump, label)
-
-	for skipN < 0 {
-		dest = dest[1:]
-		if len(dest) == 0 {
-			return 0, fmt.Errorf("backward jumps are not supported")
-		}
-		p.labels[label] = dest
-		skipN = p.computeSkipN(jump, label)
+	pos := 0
+	for pos < len(dest) && dest[pos] < insertIndex {
+		pos++
 	}
-
-	// BPF does not support long conditional jumps.
-	if skipN > math.MaxUint8 {
-		insertAfter := findInsertAfter(p.jumps, jump)
-
-		// If the jump destination is a return instruction, copy it and add an early return,
-		// if not, insert a long jump.
-		jumpDest := p.instructions[dest[0]]
-		if _, ok := jumpDest.(bpf.RetConstant); !ok {
-			jumpDest = bpf.Jump{Skip: uint32(skipN - int(insertAfter.index))}
-		}
-
-		insertIndex := p.insertAfter(insertAfter.index, jumpDest)
-		p.labels[label] = append([]Index{insertIndex}, dest...)
-		skipN = p.computeSkipN(jump, label)
-	}
-	return uint8(skipN), nil
+	dest = append(dest, 0)
+	copy(dest[pos+1:], dest[pos:])
+	dest[pos] = insertIndex
+	p.labels[label] = dest
 }
 
 // Inserts the instruction after the instruction indicated by index, which must come from p.jumps.
@@ -233,26 +254,15 @@ func (p *Program) updateIndices(after Index) {
 	}
 }
 
-// Computes the number of instructions to skip by resolving the label.
+// Computes the number of instructions to skip to reach the nearest destination of the label behind the jump.
 // It might be that the jump is a long jump.
-func (p *Program) computeSkipN(jump JumpIf, label Label) int {
-	dest := p.labels[label]
-	return int(dest[0]-jump.index) - 1
-}
-
-// To insert a new instruction into the instruction list, the furthest jump instruction within
-// a short jump is searched.
-// It is necessary to search a jump instruction to jump over the new inserted instruction
-// and do not disturb the program flow.
-func findInsertAfter(jumps []JumpIf, currentJump JumpIf) JumpIf {
-	insertAfter := currentJump
-	maxIndex := currentJump.index + 255
-	for _, jump := range jumps {
-		if jump.index < maxIndex {
-			insertAfter = jump
+func (p *Program) computeSkipN(jump JumpIf, label Label) (int, error) {
+	for _, dest := range p.labels[label] {
+		if dest > jump.index {
+			return int(dest-jump.index) - 1, nil
 		}
 	}
-	return insertAfter
+	return 0, fmt.Errorf("backward jumps are not supported")
 }
 
 // Calculate the index of the current instruction.
